@@ -104,6 +104,14 @@ def main():
         if replay:
             mod.replay(ctx, json.load(open(replay)))
         else:
+            # the corpus of past failures (inputs on which the unrepaired code broke the property, and past false alarms) runs first
+            cdir = os.path.join(VERIF, "corpus", prop)
+            for f in sorted(os.listdir(cdir)) if os.path.isdir(cdir) else []:
+                try:
+                    mod.replay(ctx, json.load(open(os.path.join(cdir, f))))
+                    ctx.sit("corpus_cases_replayed")
+                except Exception as e:
+                    ctx.assumptions.append(f"corpus case {f} could not be replayed: {type(e).__name__}: {e}")
             mod.run(ctx)
     except Exception as e:
         if proof_broken is None:
